@@ -334,21 +334,50 @@ func (c *compiler) evalUpdateIndex(left, index, value interface{}) error {
 	rv := reflect.ValueOf(left)
 	switch rv.Kind() {
 	case reflect.Map:
-		rv.SetMapIndex(reflect.ValueOf(index), reflect.ValueOf(value))
+		if rv.IsNil() {
+			return fmt.Errorf("cannot assign to an entry of a nil map (%T)", left)
+		}
+
+		mapType := rv.Type()
+		if index == nil {
+			return fmt.Errorf("cannot use nil as %s value in map index", mapType.Key())
+		}
+
+		key := reflect.ValueOf(index)
+		if !key.Type().AssignableTo(mapType.Key()) || !key.Comparable() {
+			return fmt.Errorf("cannot use %v (%T) as %s value in map index", index, index, mapType.Key())
+		}
+
+		val := reflect.ValueOf(value)
+		if val.IsValid() && !val.Type().AssignableTo(mapType.Elem()) {
+			return fmt.Errorf("cannot use '%v' (%T) as %s value in assignment", value, value, mapType.Elem())
+		}
+
+		rv.SetMapIndex(key, val)
 	case reflect.Array, reflect.Slice:
 		if i, ok := index.(int); ok {
-			if rv.Len()-1 < i {
+			if i < 0 || rv.Len()-1 < i {
 				err = fmt.Errorf("array index out of bounds, got index %d, while array size is %v", i, rv.Len())
 			} else {
 				elemType := reflect.TypeOf(left).Elem()
+				val := reflect.ValueOf(value)
+				if !val.IsValid() {
+					val = reflect.Zero(elemType)
+				}
+
 				if elemType.Kind() != reflect.Interface {
-					t := reflect.ValueOf(value).Type()
+					t := val.Type()
 					if elemType != t {
 						err = fmt.Errorf("cannot use '%v' (untyped %s constant) as %s value in assignment", value, t, elemType)
 					}
 				}
+
+				if err == nil && !rv.Index(i).CanSet() {
+					err = fmt.Errorf("cannot assign to an element of %T: it is not addressable", left)
+				}
+
 				if err == nil {
-					rv.Index(i).Set(reflect.ValueOf(value))
+					rv.Index(i).Set(val)
 				}
 			}
 		} else {
@@ -367,11 +396,15 @@ func (c *compiler) evalAccessIndex(left, index interface{}, node *ast.IndexExpre
 	rv := reflect.ValueOf(left)
 	switch rv.Kind() {
 	case reflect.Map:
-		mapKeyType := reflect.TypeOf(left).Key().Kind()
-		keyType := reflect.TypeOf(index).Kind()
-		if mapKeyType != reflect.Interface &&
-			keyType != mapKeyType {
-			err = fmt.Errorf("cannot use %v (%s constant) as %s value in map index", index, keyType.String(), mapKeyType.String())
+		mapKeyType := reflect.TypeOf(left).Key()
+		if index == nil {
+			err = fmt.Errorf("cannot use nil as %s value in map index", mapKeyType)
+			return nil, err
+		}
+
+		key := reflect.ValueOf(index)
+		if !key.Type().AssignableTo(mapKeyType) || !key.Comparable() {
+			err = fmt.Errorf("cannot use %v (%s constant) as %s value in map index", index, key.Kind().String(), mapKeyType.Kind().String())
 			return nil, err
 		}
 
@@ -387,7 +420,7 @@ func (c *compiler) evalAccessIndex(left, index interface{}, node *ast.IndexExpre
 		}
 	case reflect.Array, reflect.Slice:
 		if i, ok := index.(int); ok {
-			if rv.Len()-1 < i {
+			if i < 0 || rv.Len()-1 < i {
 				err = fmt.Errorf("array index out of bounds, got index %d, while array size is %d", index, rv.Len())
 			} else {
 
